@@ -480,6 +480,69 @@ def r6_multi_block(ctx):
         ctx.r.ok("C02.R6", fn.qual, "closest-block distance, both receiver orders", fn)
 
 
+def size_thresholds(repo, module, lo=4, hi=5000):
+    """integer literals that a size (len(...), num_blocks, a count) is compared with in `module`: code that switches to another
+    algorithm above such a size has a regime that small layouts never enter"""
+    out = set()
+    m = repo.module(module)
+    for node in ast.walk(m.tree):
+        if isinstance(node, ast.Compare):
+            sides = [node.left] + list(node.comparators)
+            consts = [x.value for x in sides if isinstance(x, ast.Constant) and isinstance(x.value, int) and not isinstance(x.value, bool)]
+            sized = any(isinstance(y, ast.Call) and dotted(y.func) in ("len", "sum") or isinstance(y, ast.Attribute) and y.attr in ("num_blocks", "length")
+                        for x in sides for y in ast.walk(x))
+            if sized:
+                out |= {c for c in consts if lo <= c <= hi}
+    return sorted(out)
+
+
+def r9_many_blocks(ctx):
+    """locations with many blocks (more than any size threshold found in the module, at least 40 per operand): the set operations
+    still equal position-set semantics - an algorithm chosen by size has to give the same answers"""
+    r, repo = ctx.r, ctx.repo
+    it = loc_interp(repo, max_steps=10 ** 10)
+    S = strands(it)
+    ths = size_thresholds(repo, LOC)
+    sizes = sorted({40} | {t // 2 + 2 for t in ths} | {t + 2 for t in ths if t <= 400})
+    n = 0
+    for nb in sizes:
+        for sn in (("PLUS", "MINUS") if nb == sizes[0] else ("PLUS",)):
+            A = [(10 * i, 10 * i + 6) for i in range(nb)]
+            B = [(10 * i + 4, 10 * i + 9) for i in range(nb)]          # every block overlaps one of A and is adjacent to nothing
+            C = [(10 * i + 6, 10 * i + 8) for i in range(nb)]          # adjacent to A's blocks, disjoint from them
+            a, b, c = (mk_compound(it, [x[0] for x in L], [x[1] for x in L], S[sn]) for L in (A, B, C))
+            pa, pb, pc = positions(a), positions(b), positions(c)
+            both = mk_compound(it, [x[0] for x in A + B], [x[1] for x in A + B], S[sn])
+            sub = mk_compound(it, [x[0] + 1 for x in A[::3]], [x[1] - 1 for x in A[::3]], S[sn])
+            desc = f"{nb}-block operands on {sn}"
+            checks = [
+                ("union", a, [b], pa | pb, True), ("union", a, [c], pa | pc, True), ("intersection", a, [b], pa & pb, False),
+                ("minus", a, [b], pa - pb, False), ("minus", b, [a], pb - pa, False), ("intersection", a, [c], set(), False),
+                ("merge_overlapping", both, [], pa | pb, True), ("optimize_and_combine_blocks", both, [], pa | pb, True),
+            ]
+            for op, recv, args, want, merged in checks:
+                n += 1
+                f = repo.fn(f"{LOC}:CompoundInterval.{op}")
+                k, v = run(it, f, args, {}, recv)
+                got = positions(v) if k == "ok" and isinstance(v, Obj) and not is_empty_obj(v) else (set() if k == "ok" else None)
+                ok = k == "ok" and got == want
+                why = ""
+                if ok and want and merged:
+                    # a merged result has no overlapping or adjacent blocks left: its length counts every position once
+                    bl = sorted(blocks_of(v))
+                    if sum(e - s_ for s_, e in bl) != len(want) or any(x[1] >= y[0] for x, y in zip(bl, bl[1:])):
+                        ok, why = False, f"; blocks still overlap or touch: {bl[:4]}.. (sum of block lengths {sum(e - s_ for s_, e in bl)}, positions {len(want)})"
+                r.check(ok, "C02.R9", f.qual, f"{op} on many blocks",
+                        f"{desc}: {op} -> {k}:{'%d positions' % len(got) if got is not None else v}; position sets give {len(want)} positions{why}", f)
+            for op, recv, arg, want in (("has_overlap", a, b, True), ("has_overlap", a, c, False), ("contains", a, sub, True), ("contains", a, b, False)):
+                n += 1
+                f = repo.fn("location.location:Location.contains") if op == "contains" else repo.fn(f"{LOC}:CompoundInterval.{op}")
+                k, v = run(it, f, [arg], {}, recv)
+                r.check(k == "ok" and bool(v) is want, "C02.R9", f.qual, f"{op} on many blocks", f"{desc}: {op} -> {k}:{v}; expected {want}", f)
+    r.note(f"C02.R9: size thresholds found in {LOC}: {ths}; operand sizes evaluated: {sizes}")
+    r.floor("C02.R9", "many-block evaluations", n, 20)
+
+
 def r7_cgranges_path(ctx):
     """the optional interval-index branch of the compound x compound intersection (taken only when the cgranges package is
     installed - it is not in this environment, so no test runs it) gives position-set answers as well: the same operand
@@ -607,6 +670,7 @@ RULES = [
     ("C02.R6", r6_multi_block),
     ("C02.R7", r7_cgranges_path),
     ("C02.R8", r8_parents),
+    ("C02.R9", r9_many_blocks),
 ]
 
 
